@@ -639,10 +639,21 @@ func schemaAtoi(x *Exec, st *State, fn *ssa.Function, args []Val, c *ssa.CallCom
 // and ok(s) ==> every byte of s is a digit && len(s) >= 1.
 func (x *Exec) parseUintTerms(s StrVal) (*Term, *Term) {
 	o := x.o
+	// one representation per text: the choice between the exact bounded semantics and the uninterpreted functions
+	// depends on what is known about the length when the text is first met, and must not change afterwards
+	key := [3]*Term{s.Arr, s.Off, s.Len}
+	if r, ok := x.puMemo[key]; ok {
+		return r[0], r[1]
+	}
+	if x.puMemo == nil {
+		x.puMemo = map[[3]*Term][2]*Term{}
+	}
 	if b := o.Bounds(s.Len); b.hi != nil && b.hi.IsInt64() && b.hi.Int64() <= 24 {
 		K := int(b.hi.Int64())
 		digits, val := x.decimalValue(s, K)
-		return o.And(o.Le(o.Int(1), s.Len), digits, o.Lt(val, o.IntBig(two64))), val
+		okT := o.And(o.Le(o.Int(1), s.Len), digits, o.Lt(val, o.IntBig(two64)))
+		x.puMemo[key] = [2]*Term{okT, val}
+		return okT, val
 	}
 	valid := o.UF("parseuint.ok", BoolSort, s.Arr, s.Off, s.Len)
 	val := o.UF("parseuint.val", IntSort, s.Arr, s.Off, s.Len)
@@ -671,6 +682,7 @@ func (x *Exec) parseUintTerms(s StrVal) (*Term, *Term) {
 		}
 		x.puApps = append(x.puApps, puApp{s, valid, val})
 	}
+	x.puMemo[key] = [2]*Term{valid, val}
 	return valid, val
 }
 
